@@ -417,10 +417,47 @@ Proof.
   rewrite <- Hfm. apply calls_ok_map. exact H.
 Qed.
 
-Lemma ddlog_ok body : calls_ok (calls_ddlog body) (entries_ddlog body).
+Lemma ddlog_ok ck body : calls_ok (calls_ddlog ck body) (entries_ddlog ck body).
 Proof.
   unfold calls_ddlog, entries_ddlog. apply calls_ok_map1. intros e _. apply single_call_ok. unfold TYPE_LOG. lia.
 Qed.
+
+Lemma cf_ok src ck body : calls_ok (calls_cf src ck body) (entries_cf src ck body).
+Proof.
+  unfold calls_cf, entries_cf. apply calls_ok_map1. intros e _. apply single_call_ok. unfold TYPE_LOG. lia.
+Qed.
+
+(* Elasticsearch bulk: the label buffer the loop carries from line to line is the one of the last action line *)
+Lemma last_action_snoc before l acc :
+  last_action (before ++ [l]) acc = match el_kind l with EsClear => [] | EsSet l' => l' | _ => last_action before acc end.
+Proof.
+  revert acc. induction before as [|x before IH]; intros acc; cbn [app last_action].
+  - destruct (el_kind l); reflexivity.
+  - apply IH.
+Qed.
+
+Lemma es_lines_ok : forall body before nows,
+  calls_ok (es_lines (last_action before []) nows body)
+           (map (fun p => E (fst (snd p)) (fst p) (snd (snd p)) 0%N TYPE_LOG) (clocked nows (es_entry_lines before body))).
+Proof.
+  induction body as [|l r IH]; intros before nows; cbn [es_lines es_entry_lines].
+  - apply calls_ok_nil.
+  - pose proof (last_action_snoc before l []) as Hs. unfold es_is_entry.
+    destruct (el_kind l) as [|l'| |] eqn:Hk; cbn [app].
+    + rewrite <- Hs. apply IH.
+    + rewrite <- Hs. apply IH.
+    + destruct (last_action before []) as [|kv lb] eqn:Hl; cbn [negb app].
+      * specialize (IH (before ++ [l]) nows). rewrite Hs in IH. exact IH.
+      * cbn [clocked map fst snd]. specialize (IH (before ++ [l]) (tl nows)). rewrite Hs in IH.
+        change (calls_ok ([K (kv :: lb) [hd 0 nows] [el_text l] [0%N] [TYPE_LOG]] ++ es_lines (kv :: lb) (tl nows) r)
+                         ([E (kv :: lb) (hd 0 nows) (el_text l) 0%N TYPE_LOG] ++
+                          map (fun p => E (fst (snd p)) (fst p) (snd (snd p)) 0%N TYPE_LOG) (clocked (tl nows) (es_entry_lines (before ++ [l]) r)))).
+        apply calls_ok_app; [|exact IH]. apply one_call_ok. unfold TYPE_LOG. lia.
+    + specialize (IH (before ++ [l]) nows). rewrite Hs in IH. exact IH.
+Qed.
+
+Lemma es_ok ck body : calls_ok (calls_es ck body) (entries_es ck body).
+Proof. unfold calls_es, entries_es. exact (es_lines_ok body [] (ck_nows ck)). Qed.
 
 Lemma ddmet_ok body : calls_ok (calls_ddmet body) (entries_ddmet body).
 Proof.
@@ -446,6 +483,70 @@ Proof.
   - apply ddlog_ok.
   - apply ddmet_ok.
   - apply otlp_ok.
+  - apply cf_ok.
+  - apply es_ok.
+Qed.
+
+(* ---------------------------------------------------------------- the clock: entries without a timestamp of their own *)
+Lemma clocked_length {A} : forall (l : list A) nows, List.length (clocked nows l) = List.length l.
+Proof. induction l as [|x r IH]; intros nows; cbn; [reflexivity|now rewrite IH]. Qed.
+
+Lemma clocked_in {A} : forall (l : list A) nows t x, In (t, x) (clocked nows l) ->
+  (List.length l <= List.length nows)%nat -> In t nows /\ In x l.
+Proof.
+  induction l as [|y r IH]; intros nows t x Hin Hlen; cbn in Hin; [contradiction|].
+  destruct nows as [|n0 nows]; [cbn in Hlen; lia|]. cbn [hd tl] in Hin. destruct Hin as [Heq|Hin].
+  - inversion Heq; subst. split; now left.
+  - cbn in Hlen. destruct (IH nows t x Hin ltac:(lia)) as [A1 A2]. split; now right.
+Qed.
+
+Lemma clock_okb_spec ck : clock_okb ck = true -> forall t, In t (ck_nows ck) -> ck_lo ck <= t <= ck_hi ck.
+Proof.
+  unfold clock_okb. intros H t Ht. rewrite forallb_forall in H. specialize (H t Ht).
+  apply andb_prop in H. destruct H as [H1 H2]. apply Z.leb_le in H1. apply Z.leb_le in H2. lia.
+Qed.
+
+(* every Datadog log entry carries its own timestamp when it has one, and a clock reading of the request otherwise *)
+Lemma ddlog_entries_times ck body : clock_okb ck = true -> (List.length body <= List.length (ck_nows ck))%nat ->
+  Forall2 (fun (l : ddlog) (e : entry) =>
+             e_labels e = ddlog_labels l /\ e_msg e = dl_msg l /\
+             (dl_ts l <> 0 -> e_ts e = wrap64 (dl_ts l * 1000000)) /\
+             (dl_ts l = 0 -> ck_lo ck <= e_ts e <= ck_hi ck))
+          body (entries_ddlog ck body).
+Proof.
+  intros Hck. pose proof (clock_okb_spec ck Hck) as Hin. unfold entries_ddlog. clear Hck.
+  generalize dependent (ck_nows ck). intros nows Hin. revert nows Hin.
+  induction body as [|l r IH]; intros nows Hin Hlen; cbn [clocked map]; constructor.
+  - cbn [fst snd e_labels e_msg e_ts]. unfold ddlog_ts. split; [reflexivity|]. split; [reflexivity|]. split.
+    + intros Hz. apply Z.eqb_neq in Hz. now rewrite Hz.
+    + intros Hz. rewrite Hz. cbn. destruct nows as [|n0 nows]; [cbn in Hlen; lia|]. apply Hin. now left.
+  - apply IH.
+    + intros t Ht. apply Hin. destruct nows; [contradiction|now right].
+    + destruct nows; cbn in *; lia.
+Qed.
+
+Lemma cf_entries_times src ck body : clock_okb ck = true -> (List.length body <= List.length (ck_nows ck))%nat ->
+  Forall2 (fun (l : cfline) (e : entry) =>
+             e_labels e = cf_labels src l /\ e_msg e = cf_text l /\
+             (cf_ts l <> 0 -> e_ts e = cf_ts l) /\ (cf_ts l = 0 -> ck_lo ck <= e_ts e <= ck_hi ck))
+          body (entries_cf src ck body).
+Proof.
+  intros Hck. pose proof (clock_okb_spec ck Hck) as Hin. unfold entries_cf. clear Hck.
+  generalize dependent (ck_nows ck). intros nows Hin. revert nows Hin.
+  induction body as [|l r IH]; intros nows Hin Hlen; cbn [clocked map]; constructor.
+  - cbn [fst snd e_labels e_msg e_ts]. unfold cf_time. split; [reflexivity|]. split; [reflexivity|]. split.
+    + intros Hz. apply Z.eqb_neq in Hz. now rewrite Hz.
+    + intros Hz. rewrite Hz. cbn. destruct nows as [|n0 nows]; [cbn in Hlen; lia|]. apply Hin. now left.
+  - apply IH.
+    + intros t Ht. apply Hin. destruct nows; [contradiction|now right].
+    + destruct nows; cbn in *; lia.
+Qed.
+
+(* the rows of a clocked body do not depend on the clock where the entries carry their own timestamps *)
+Lemma ddlog_clock_irrelevant ck1 ck2 body : Forall (fun l => dl_ts l <> 0) body -> entries_ddlog ck1 body = entries_ddlog ck2 body.
+Proof.
+  unfold entries_ddlog. generalize (ck_nows ck1) (ck_nows ck2). induction body as [|l r IH]; intros n1 n2 H; cbn [clocked map]; [reflexivity|].
+  inversion H as [|? ? Hl Hr]; subst. cbn [fst snd]. unfold ddlog_ts. apply Z.eqb_neq in Hl. rewrite Hl. f_equal. now apply IH.
 Qed.
 
 (* ---------------------------------------------------------------- the parsers, end to end *)
